@@ -39,8 +39,15 @@ type), E = S + 96:
                                       bound ub of (ub + 1) * unit (PER decoders preallocate ub units): "a constant
                                       determined by the type's fixed-size constraints"
 
-Measured honest decoders stay below 2 % of this bound (evidence: max_heap_ratio_honest); a length or count bomb of
-2^20 units with n <= 64 exceeds it, the larger claims (2^24 .. 2^64-1) exceed it by orders of magnitude.
+Measured: honest large values (families big, zwmax) reach at most 6 % of the bound; the largest ratio of any surviving
+decode is 0.80 (UniversalString, UPER fragment header 0xC4 without data: 64K x 4 octets are allocated before the data is
+looked at -- exactly the 64 KiB * U term, which no input can exceed because a PER length determinant announces at most
+64K units).  A length or count bomb of 2^20 units with n <= 64 exceeds the bound, larger claims (2^24 .. 2^64-1) by
+orders of magnitude.  Observation (inside the bound, reported only): nested PER open types are copied level by level
+(per_opentype.c), so the heap is depth x n; the depth is bounded by the stack guard only.
+
+XER has no length prefixes and no zero-width elements, BER collections have no zero-width elements: the families len and
+count do not exist there; XER/BER are covered by nest, big and mut.
 """
 import json
 import os
@@ -62,7 +69,8 @@ ENV_ASSUME = "VERIF_C15_ASSUME_KNOWN"     # TEST ONLY: comma-separated classes t
 RULE = ("purpose-built recursive and collection-bearing modules with Hypothesis-drawn parameters (tagging default, "
         "IMPLICIT/EXPLICIT member tags, extension markers, element and string kinds, SIZE constraints) x adversarial "
         "inputs built constructively per syntax: nest = nesting through SEQUENCE / CHOICE / SEQUENCE OF / SET / mixed "
-        "cycles / EXPLICIT tag chains / constructed strings / indefinite and definite lengths to depth 10..10^5; len = "
+        "cycles / EXPLICIT tag chains / extension additions (open types in PER and OER) / constructed strings / indefinite "
+        "and definite lengths to depth 10..10^5; len = "
         "length prefixes claiming 2^20..2^64-1 octets with <= 64 octets behind them (BER long form, OER length, PER "
         "fragments); count = element counts up to the maximum with zero-width or absent elements; frag = fragmented "
         "PER lengths with and without data; zwmax = the most zero-width elements the guard admits; big = honest large "
